@@ -457,7 +457,7 @@ def is_coplanar(*args: PointTensor | LineTensor, tol: float = EQ_TOL_ABS) -> npt
 
     """
     n = args[0].dim + 1
-    result = np.isclose(det(np.stack([a.array for a in args[:n]], axis=-2)), 0, atol=tol)
+    result = np.isclose(det(np.stack(np.broadcast_arrays(*[a.array for a in args[:n]]), axis=-2)), 0, atol=tol)
     if not np.any(result) or len(args) == n:
         return result
     # more than n arguments: the coordinate matrix has rank < n if and only if all of its maximal minors vanish
